@@ -434,11 +434,16 @@ class Builder:
         ent_results_array: Array,
         tp: EPRType,
         role: EPRRole,
-    ) -> None:
+    ) -> bool:
+        """Build the loop that handles the pairs one by one with the post routine.
+
+        Returns whether the post routine has measured or freed the pair's qubit.
+        """
 
         loop_register = self._mem_mgr.get_inactive_register(activate=True)
         qubit_reg = self._mem_mgr.get_inactive_register(activate=True)
         bell_state_reg = self._mem_mgr.get_inactive_register(activate=True)
+        pair_qubits: List[FutureQubit] = []
 
         def post_loop(conn: BaseNetQASMConnection, loop_reg: RegFuture):
             # Wait for each pair individually
@@ -463,6 +468,7 @@ class Builder:
 
             q_id = qubit_ids.get_future_index(loop_register)
             q = FutureQubit(conn=conn, future_id=q_id)
+            pair_qubits.append(q)
             pair_future = RegFuture(self._connection, loop_register)
             assert params.post_routine is not None
             params.post_routine(self, q, pair_future)
@@ -474,6 +480,7 @@ class Builder:
         self._mem_mgr.remove_active_register(loop_register)
         self._mem_mgr.remove_active_register(qubit_reg)
         self._mem_mgr.remove_active_register(bell_state_reg)
+        return len(pair_qubits) > 0 and not any(q.active for q in pair_qubits)
 
     def _add_wait_for_ent_info_cmd(
         self, ent_results_array: Array, pair: operand.Register
@@ -1925,9 +1932,14 @@ class Builder:
 
         # Construct and add NetQASM instructions for post routine
         if params.post_routine:
-            self._build_cmds_post_epr(
+            consumed = self._build_cmds_post_epr(
                 qubit_ids_array, params, ent_results_array, EPRType.K, role
             )
+            if consumed:
+                # The post routine has measured or freed every pair's qubit: none of
+                # them exists after the loop, so their virtual IDs are free again.
+                for q in qubit_futures:
+                    q.active = False
 
         return qubit_futures, ent_results_array
 
